@@ -9,7 +9,7 @@ args = sys.argv[1:]
 jobs = 6
 if '--jobs' in args:
     k = args.index('--jobs'); jobs = int(args[k + 1]); del args[k:k + 2]
-ids = args or sorted(os.path.basename(p) for p in glob.glob(os.path.join(ROOT, 'seeded', 'C*')))
+ids = args or sorted(os.path.basename(p) for p in glob.glob(os.path.join(ROOT, 'seeded', 'C*')) if os.path.isdir(p))
 
 def one(sid):
     prop = sid.split('-')[0]
